@@ -28,3 +28,14 @@ mod stdlib_tests;
 mod tests;
 #[cfg(test)]
 mod typecheck_tests;
+
+/// Verification hooks: re-exports of crate-private compiler phases.
+#[cfg(oal_verif)]
+pub mod verif {
+    pub use crate::inference::tag::{FuncTag, Seq, Tag, TagId};
+    pub use crate::inference::unify::InferenceSet;
+    pub use crate::inference::union::{reduce, UnionFind};
+    pub use crate::inference::{constrain, substitute, tag};
+    pub use crate::resolve::{resolve, Graph};
+    pub use crate::typecheck::{cycles_check, type_check};
+}
